@@ -25,7 +25,6 @@
 EXTENDS Search, SequencesExt, Json, IOUtils
 
 CONSTANTS MaxLen,      \* messages per mailbox (<= 3)
-          Buckets,     \* work units per mailbox (only affects TLC's parallelism)
           Tier         \* "quick" | "thorough": which part of the space is emitted deep
 
 VARIABLES mi, fmb, p, ph, bk
@@ -98,7 +97,12 @@ MailboxSet ==
          \cup (IF MaxLen >= 3 THEN {Mk(Rot(i), u) : i \in 1..NT, u \in UidPats(3)} ELSE {})
     ELSE UNION {{Mk(ts, u) : ts \in TypeSeqs(n), u \in UidPats(n)} : n \in 0..MaxLen}
 MailboxSeq == SetToSeq(MailboxSet)
-Deep(mbx) == Tier # "quick" \/ Len(mbx) = 3
+(* mailboxes on which the code is also given the depth-2 programs, the law  *)
+(* images and the random deeper programs (TLC itself visits every pair)     *)
+Deep(mbx) == /\ Len(mbx) = 3
+             /\ \/ Tier = "quick"
+                \/ /\ mbx[1][2] # 1
+                   /\ Cardinality({mbx[i][1] : i \in DOMAIN mbx}) = 3
 
 Realise(mbx) ==
     [i \in DOMAIN mbx |->
@@ -138,11 +142,12 @@ Leaves == Nullary \cup KwLeaves \cup DateLeaves \cup SizeLeaves \cup StrLeaves
 FMb(i) == MemoMb(FoldMb(Realise(MailboxSeq[i])), StrLeaves)
 AllFMbs == [i \in DOMAIN MailboxSeq |-> FMb(i)]
 
-Core == {<<"SEEN">>, <<"DELETED">>, <<"NEW">>, <<"SINCE", D>>, <<"SENTON", D>>,
-         <<"LARGER", 700>>, <<"SUBJECT", "qzsub">>, <<"SEQ", Set1(1, 1)>>,
+Core == {<<"SEEN">>, <<"NEW">>, <<"SINCE", D>>, <<"LARGER", 700>>, <<"SUBJECT", "qzsub">>,
          <<"UID", Set1(3, 5)>>}
+        \cup (IF Tier = "quick" THEN {}
+              ELSE {<<"DELETED">>, <<"SENTON", D>>, <<"SEQ", Set1(1, 1)>>})
 Core2 == {<<"SEEN">>, <<"SINCE", D>>, <<"BODY", "qzbody">>, <<"UID", Set1(3, 5)>>}
-         \cup (IF Tier = "quick" THEN {} ELSE {<<"KEYWORD", "k1">>, <<"SMALLER", 700>>})
+         \cup (IF Tier = "quick" THEN {} ELSE {<<"KEYWORD", "k1">>})
 
 Depth1(L, C) == {Not(l) : l \in L} \cup {Or(a, b) : a \in L, b \in C}
                 \cup {And2(a, b) : a \in L, b \in C}
@@ -153,6 +158,24 @@ D2 == {Not(x) : x \in D01c} \cup {Or(x, y) : x, y \in D01c} \cup {And2(x, y) : x
       \cup {<<"AND", <<a, b, c>>>> : a, b, c \in Core2}
 Shallow == D0 \cup D1
 Programs == Shallow \cup D2
+
+(* the same programs, cut into buckets (work units for TLC's workers) *)
+NotC == {Not(l) : l \in Core2}
+OrC == {Or(a, b) : a, b \in Core2}
+AndC == {And2(a, b) : a, b \in Core2}
+NBuckets == 10
+Bucket(b) ==
+    CASE b = 1 -> D0 \cup {Not(l) : l \in Leaves}
+      [] b = 2 -> {Or(a, c) : a \in Leaves, c \in Core}
+      [] b = 3 -> {And2(a, c) : a \in Leaves, c \in Core}
+      [] b = 4 -> {Not(x) : x \in D01c} \cup {<<"AND", <<a, c, d>>>> : a, c, d \in Core2}
+      [] b = 5 -> {Or(x, y) : x \in Core2 \cup NotC, y \in D01c}
+      [] b = 6 -> {Or(x, y) : x \in OrC, y \in D01c}
+      [] b = 7 -> {Or(x, y) : x \in AndC, y \in D01c}
+      [] b = 8 -> {And2(x, y) : x \in Core2 \cup NotC, y \in D01c}
+      [] b = 9 -> {And2(x, y) : x \in OrC, y \in D01c}
+      [] b = 10 -> {And2(x, y) : x \in AndC, y \in D01c}
+ASSUME UNION {Bucket(b) : b \in 1..NBuckets} = Programs
 
 (* law images that are run on the code next to their pre-images *)
 LawBase == D0 \cup Depth1(Core, Core2)
@@ -165,7 +188,7 @@ LawTriples == {<<t[1], t[2], LawImage(t[1], t[2])>> :
 ShapeLaws == {"OrComm", "AndComm", "DeMorganOr", "DeMorganAnd"}
 ReverseSet(s) == [k \in DOMAIN s |-> <<s[k][2], s[k][1]>>]
 
-LawsAt(q, mb) ==
+LawsAt(q, mb, shallow) ==
     LET all == DOMAIN mb
         ctx == CtxOf(mb)
         den == Den(q, mb)
@@ -173,7 +196,7 @@ LawsAt(q, mb) ==
        /\ den \subseteq all
        /\ den = {i \in all : Eval(q, mb[i], ctx)}                    \* Coincide
        /\ Den(Not(q), mb) = all \ den                                \* Complement
-       /\ \A law \in (IF q \in Shallow THEN Laws ELSE ShapeLaws) : LawApplies(law, q) =>
+       /\ \A law \in (IF shallow THEN Laws ELSE ShapeLaws) : LawApplies(law, q) =>
               /\ LawRel(law, q, LawImage(law, q))
               /\ Den(LawImage(law, q), mb) = den                     \* algebra
        /\ (q[1] = "OR") => den = Den(q[2], mb) \cup Den(q[3], mb)
@@ -186,11 +209,11 @@ LawsAt(q, mb) ==
                               \E i \in all : mb[i].uid = u /\ Eval(q, mb[i], ctx)}
        /\ Cardinality(UidDen(q, mb)) = Cardinality(den)
 
-LawsHold == ph = 1 => LawsAt(p, fmb)
+LawsHold == ph = 1 => LawsAt(p, fmb, bk <= 3)
 
 TypeOK == /\ mi \in DOMAIN MailboxSeq
           /\ ph \in {0, 1}
-          /\ bk \in 0..(Buckets - 1)
+          /\ bk \in 1..NBuckets
 
 (* every key separates something somewhere in the space (non-vacuity) *)
 Trivial == {<<"ALL">>, <<"KEYWORD", "k2">>, <<"SUBJECT", "">>, <<"BODY", "qzsub">>,
@@ -228,15 +251,14 @@ ASSUME IF "SEARCH_SPACE" \in DOMAIN IOEnv
 ---------------------------------------------------------------------------
 (* one initial state per <<mailbox, bucket of programs>> (work units for   *)
 (* TLC's workers), one successor per program of the bucket                 *)
-ProgramSeq == SetToSeq(Programs)
 Init == /\ mi \in DOMAIN MailboxSeq
         /\ fmb = FMb(mi)
         /\ p = <<"ALL">>
         /\ ph = 0
-        /\ bk \in 0..(Buckets - 1)
+        /\ bk \in 1..NBuckets
 Next == /\ ph = 0
         /\ ph' = 1
-        /\ \E i \in {j \in DOMAIN ProgramSeq : j % Buckets = bk} : p' = ProgramSeq[i]
+        /\ p' \in Bucket(bk)
         /\ UNCHANGED <<mi, fmb, bk>>
 Spec == Init /\ [][Next]_<<mi, fmb, p, ph, bk>>
 =============================================================================
